@@ -97,10 +97,30 @@ func cmdCLI(args []string) {
 	w := ev.Create(out("cli.ndjson"))
 	classes := map[string]bool{}
 	launches := 0
+	// certificates whose encoding has an awkward edge: the DER ends in a byte that reads as white space in a text format
+	var edge []*corpus.Obj
+	for _, o := range c.Certs {
+		if last := o.DER[len(o.DER)-1]; last == ' ' || (last >= 0x09 && last <= 0x0d) {
+			edge = append(edge, o)
+		}
+	}
 	for si, s := range scns {
-		for rep := 0; rep < reps; rep++ {
+		nrep := reps
+		intact := len(edge) > 0
+		for _, it := range s.Inputs {
+			if it.Corrupt != "none" {
+				intact = false
+			}
+		}
+		if intact && s.Sel == "none" && s.Cfg == "none" {
+			nrep++ // one more run of the reading scenarios, on an edge-shaped certificate
+		}
+		for rep := 0; rep < nrep; rep++ {
 			k := si*7 + rep*131 + int(seed)*17
 			certObj, crlObj := c.Certs[k%len(c.Certs)], c.CRLs[k%len(c.CRLs)]
+			if rep == reps {
+				certObj = edge[k%len(edge)]
+			}
 			// ---- selection
 			var flags []string
 			var fo lint.FilterOptions
